@@ -33,7 +33,8 @@ static int popped1[4], popped2[4], drained[12];
 static unsigned np1, np2, nd;
 static bool pushed1[4], pushed2[4], empty_seen2, empty_seen1, full_seen1, full_seen2;
 static unsigned pushes_done_before_empty2;     // number of thread-1 pushes completed when thread 2 saw 'empty'
-static unsigned done1;                         // completed pushes of thread 1 (monotone counter, written by thread 1)
+static std::atomic<unsigned> done1;            // completed pushes of thread 1 (monotone counter, written by thread 1; atomic so that the
+                                               // harness itself is race free under the C03 oracle; relaxed = no synchronisation added)
 
 extern "C" void vp_setup() {
   q = new Q();
@@ -45,7 +46,7 @@ extern "C" void vp_thread1() {
     bool ok = q->push(1 + i);
     pushed1[i] = ok;
     if (!ok) full_seen1 = true;
-    ++done1;
+    done1.store(done1.load(std::memory_order_relaxed) + 1, std::memory_order_relaxed);
   }
   for (int i = 0; i < NPOP1; ++i) { int v = -1; if (q->pop(v)) popped1[np1++] = v; else empty_seen1 = true; }
   vp_cover(1);
@@ -54,7 +55,7 @@ extern "C" void vp_thread2() {
   for (int i = 0; i < NPUSH2; ++i) { bool ok = q->push(6 + i); pushed2[i] = ok; if (!ok) full_seen2 = true; }
   for (int i = 0; i < NPOP2; ++i) {
     int v = -1;
-    unsigned before = done1;        // pushes of thread 1 that completed before this pop started
+    unsigned before = done1.load(std::memory_order_relaxed);        // pushes of thread 1 that completed before this pop started
     if (q->pop(v)) { popped2[np2++] = v; vp_cover(2); }
     else {
       empty_seen2 = true;
